@@ -308,6 +308,11 @@ def check(prop, tier, seed, a, workdir, t_start):
         os.makedirs(out_dir, exist_ok=True)
         bu = built[(u.name, cfg)]
         inputs = trace_inputs(p, 'h_' + g.name)
+        if fv:
+            try:
+                inputs[fv[0]] = int(fv[1])
+            except ValueError:
+                pass
         reproduced, log = native_replay(g, bu, inputs, out_dir, g.name)
         oname = re.sub(r'[^A-Za-z0-9_.-]', '_', '%s.%s.%s%s.%s' % (prop, g.name, cfg, ('.' + r['label']) if r.get('label') else '', p.get('property')))
         path = os.path.join(out_dir, oname + '.json')
@@ -370,6 +375,9 @@ def check(prop, tier, seed, a, workdir, t_start):
     if not a.no_evidence and not a.only:
         os.makedirs(os.path.join(VERIF, 'evidence'), exist_ok=True)
         json.dump(ev, open(os.path.join(VERIF, 'evidence', prop + '.json'), 'w'), indent=1)
+    slow = sorted([(r_['seconds'], r_['group'], r_['config']) for r_ in fn_rows if r_['seconds'] > 10], reverse=True)[:8]
+    if slow:
+        sys.stderr.write('slowest groups: ' + ', '.join('%s[%s] %.0fs' % (g_, c_, s_) for s_, g_, c_ in slow) + '\n')
     print('%s tier=%s: %d/%d unbounded obligations discharged, %d bounded groups, %d groups, %d violations, %d undecided, %.1fs' %
           (prop, tier, n_ok, n_obl, len(bounded), len(fn_rows), len(violations), len(undec), wall))
     return exit_code
